@@ -7,7 +7,7 @@ from props._hist import History, Fail, result_fail, sig_from_rec, std_replay
 PROP = "C02"
 LEVEL = "other"
 SELFTEST_PARTS = ("num",)
-WALL_BUDGET = {"quick": 1200, "thorough": 9000}
+WALL_BUDGET = {"quick": 3600, "thorough": 14400}
 OPS = ["create", "write", "delete", "mkdir", "rmdir", "corrupt", "rename_away", "move_out"]
 
 
